@@ -15,8 +15,30 @@
 // receives every delivered retained-set through UpdateRetainedCheckpoints.
 //
 // After every model step the observables of the real code are compared with
-// what the property demands (violation) and with what the model predicts
-// (drift: the behaviour is abandoned, never reported).
+// what the property demands (violation) and, only then, with what the model
+// predicts (drift: the behaviour is abandoned, never reported).
+//
+// Config flags select further arms:
+//
+//	Adversarial  behaviours of the model with Pre_NotifyUnordered: notification
+//	             goroutines are released in an order the repaired design forbids;
+//	             the code must serialise (no send within shortWait).
+//	SlowSub      the store's retained-checkpoints channel is unbuffered (as in
+//	             jobs.New) and its subscriber receives exactly one value per
+//	             NotifyDeliver step: NotifySend only releases the goroutine, the
+//	             order in which the sets reach the subscriber is observed at the
+//	             deliveries.
+//	AdvAck       behaviours of the model with Pre_AckUnlocked (an acknowledgement
+//	             releases the lock between bookkeeping and finishSnapshot): every
+//	             API call runs on its own goroutine, the stub splitter's
+//	             Checkpoint() parks at the gate "spl.checkpoint", AckFinish
+//	             releases it. Calls issued while an acknowledgement is parked
+//	             there must block (serialised) or be refused; a second
+//	             publication decision for the same id is a violation
+//	             (PublishedOnce).
+//
+// The job -> operator boundary (RpcMode behaviours) is replayed on the real
+// jobs.Job by harness/cmd/storejob.
 package main
 
 import (
@@ -233,8 +255,8 @@ type harness struct {
 	dkv    bool
 	devs   map[string]bool
 	advers bool
-	advAck bool // AdvAck arm: calls are issued from their own goroutines, Checkpoint() is gated
-	slow   bool // SlowSub arm: the retained-checkpoints channel is unbuffered and its subscriber receives only at NotifyDeliver
+	advAck bool              // AdvAck arm: calls are issued from their own goroutines, Checkpoint() is gated
+	slow   bool              // SlowSub arm: the retained-checkpoints channel is unbuffered and its subscriber receives only at NotifyDeliver
 	names  map[uint64]string // id -> relative path of its snapshot file (learned from the real store)
 	ids    map[string]uint64 // relative path -> id
 	seeds  map[uint64][]byte // id -> file content produced by the real store
@@ -407,7 +429,6 @@ func (h *harness) newDir() string {
 // is only read when a savepoint artifact is created, so it is written then.
 func dkvStub(dir, op string) string { return filepath.Join(dir, "dkv", op, "checkpoints") }
 
-//
 // The savepoint artifact copies the files of the DKV checkpoint that belongs to
 // the job checkpoint being published (recovery.ListCheckpointFiles looks the id
 // up in the document), so the document lists every id published as a savepoint
